@@ -700,6 +700,14 @@ def make_groups(rng, tier):
                         rq = make_request(gen, scoped, n, kind, pos, extra_bad=rng.choice([0, 0, 0, 2]), existing=existing, base=base)
                         if rq:
                             reqs.append(rq)
+            # long batches: the scan must not stop early (quick: 130 items; thorough: see "big")
+            base = make_base(gen, scoped, 130)
+            base["name"] = "base_130"
+            for pos in (99, 100, 101, 129):
+                for kind in ("bad_b64", "dup_in_batch", "hdr_bad_value", "payload_too_large", "existing_id", "target_wrong"):
+                    rq = make_request(gen, scoped, 130, kind, pos, existing=existing, base=base)
+                    if rq:
+                        reqs.append(rq)
             for ch in range(0, len(reqs), 70):
                 groups.append(dict(config=text, intent=intent, backend=backend, nobatch=False, now=T0, setup=setup, requests=reqs[ch:ch + 70], gen=gen,
                                    tag="sweep-%s-%s-%d" % (backend, "scoped" if scoped else "global", ch // 70)))
@@ -987,9 +995,9 @@ def main(ctx, replay):
                              {"kind": "request", "case": case, "observed": obs, "expected": exp, "kinds": {str(a): b for a, b in rq["kinds"].items()}})
                 elif mhash != rows_hash(impl_rows(g["gen"], resp["after"])):
                     mismatches += 1
-                    if gi not in full_cache:
+                    if gi not in full_cache and len(full_cache) < 3:   # explain the first few with the model's rows
                         full_cache[gi] = eval_groups(ctx, [coq_group(g, o["compiled"], o, gi, full=True)], "f%d" % gi, full=True)[0]
-                    fm = full_cache[gi]
+                    fm = full_cache.get(gi, ("error", "not evaluated"))
                     mrows = sorted(list(r) for r in fm[k][1]) if not (isinstance(fm, tuple) and fm and fm[0] == "error") else None
                     C.report(ctx, "publish-stored:%s" % (rq.get("bad") or rq.get("req_level") or "valid"),
                              "stored messages after the request differ from the model's (payload/headers/target/state/timestamps)",
